@@ -270,6 +270,92 @@ def sym_imag(x):
     return _orig["imag"](x)
 
 
+class NpProxy:
+    """module-local stand-in for the `np` / `xp` name of a module under analysis: array *creators* with
+    an unspecified or floating dtype return object arrays (filled with exact 0/1) so that symbols can be
+    stored into them; everything else is NumPy itself."""
+
+    def __init__(self, real=np):
+        self._real = real
+
+    def __getattr__(self, item):
+        return getattr(self._real, item)
+
+    @staticmethod
+    def _obj(dtype):
+        if dtype is None:
+            return True
+        try:
+            return np.dtype(dtype).kind in "fcO"
+        except TypeError:
+            return False
+
+    def zeros(self, shape, dtype=None, *a, **k):
+        if self._obj(dtype):
+            z = np.empty(shape, dtype=object)
+            z[...] = 0
+            return z
+        return np.zeros(shape, dtype, *a, **k)
+
+    def ones(self, shape, dtype=None, *a, **k):
+        if self._obj(dtype):
+            z = np.empty(shape, dtype=object)
+            z[...] = 1
+            return z
+        return np.ones(shape, dtype, *a, **k)
+
+    def eye(self, N, M=None, k=0, dtype=None, **kw):
+        if self._obj(dtype):
+            e = np.eye(N, M, k)
+            z = np.empty(e.shape, dtype=object)
+            for idx in np.ndindex(*e.shape):
+                z[idx] = int(e[idx])
+            return z
+        return np.eye(N, M, k, dtype, **kw)
+
+    def identity(self, n, dtype=None):
+        return self.eye(n, dtype=dtype)
+
+    def zeros_like(self, a, dtype=None, *args, **k):
+        a = _arr(a)
+        if dtype is None and a.dtype != object:
+            return np.zeros_like(a, *args, **k)
+        return self.zeros(a.shape, dtype if dtype is not None else object)
+
+    def diag(self, v, k=0):
+        v = _arr(v)
+        if v.dtype == object and v.ndim == 1 and k == 0:
+            n = len(v)
+            z = np.empty((n, n), dtype=object)
+            z[...] = 0
+            for i in range(n):
+                z[i, i] = v[i]
+            return z
+        return np.diag(v, k)
+
+
+NP_PROXY_MODULES = [
+    "renormalizer.mps.mpdm", "renormalizer.mps.mps", "renormalizer.mps.mpo", "renormalizer.mps.mp", "renormalizer.mps.lib",
+    "renormalizer.mps.svd_qn", "renormalizer.mps.gs", "renormalizer.mps.hop_expr", "renormalizer.mps.thermalprop",
+    "renormalizer.tn.tree", "renormalizer.tn.treebase", "renormalizer.tn.node", "renormalizer.tn.time_evolution", "renormalizer.tn.hop_expr",
+    "renormalizer.tn.gs",
+]
+
+
+def np_proxy(modname):
+    mod = sys.modules.get(modname)
+    if mod is None:
+        try:
+            mod = __import__(modname, fromlist=["x"])
+        except Exception:
+            return
+    p = NpProxy()
+    if "np" in mod.__dict__:
+        mod.np = p
+    if "xp" in mod.__dict__:
+        mod.xp = p
+
+
 def install(extra_shadow=()):
     """idempotent process-wide installation"""
     global _installed
@@ -312,6 +398,8 @@ def install(extra_shadow=()):
     _recompile_astype(mx)
     for m in list(SHADOW_MODULES) + list(extra_shadow):
         shadow(m)
+    for m in NP_PROXY_MODULES:
+        np_proxy(m)
 
 
 def _recompile_astype(mx):
